@@ -195,7 +195,7 @@ impl<T, U: Stream> EncodeBody<T, U> {
 
 def build():
     u = Unit('encode', ['C01', 'C03', 'C06'])
-    u.prelude('base.rs', 'bytes.rs')
+    u.prelude('base.rs', 'wire.rs', 'bytes.rs')
     u.item('tonic/src/status.rs', 'enum', 'Code', derives='Clone, Copy, PartialEq, Eq')
     u.item('tonic/src/codec/compression.rs', 'enum', 'CompressionEncoding', derives='Clone, Copy, PartialEq, Eq')
     u.prelude('codec.rs')
@@ -254,7 +254,7 @@ where
                  'let ghost fut_src = *final(source.p); let ghost n0 = source.p.log@.len() as int; let ghost buf0 = buf@; let ghost enc0 = *compression_encoding; let ghost max0 = *max_message_size; proof { lemma_wire_empty::<T>(enc0, max0, source.p.log@.skip(n0)); }'),
                 ('before', 'match source.as_mut().poll_next(cx) {', 'let ghost log_before = source.p.log@;'),
                 ('after', 'Poll::Ready(Some(Ok(item))) => {', hint),
-                ('after', 'buf.truncate(offset);', 'proof { assert(!good::<T>(enc0, max0, source.p.log@.last())); assert(bytes_of::<T>(enc0, max0, source.p.log@.last()) =~= Seq::<u8>::empty()); assert(buf@ =~= buf0 + wire_of::<T>(enc0, max0, log_before.skip(n0))); assert(buf@ =~= buf0 + wire_of::<T>(enc0, max0, source.p.log@.skip(n0))); }'),
+                ('after', 'buf.truncate(offset);', 'proof { assert(!good::<T>(enc0, max0, source.p.log@.last())); assert(bytes_of::<T>(enc0, max0, source.p.log@.last()) =~= Seq::<u8>::empty()); assert(buf@ =~= buf0 + wire_of::<T>(enc0, max0, log_before.skip(n0))); assert(buf@ =~= buf0 + wire_of::<T>(enc0, max0, source.p.log@.skip(n0))); }', 0, [('before', '*error = Some(status);', 0), ('before', 'return Poll::Ready(Some(Ok(buf.split_to(buf.len()).freeze())));', 1)]),
                 ('before', 'return Poll::Ready(Some(Err(status)));', 'proof { assert(source.p.log@.take(n0) =~= source.p.log@); }'),
                 ('after', '*error = Some(status);', 'proof { assert(buf@ == buf0 + wire_of::<T>(enc0, max0, source.p.log@.skip(n0))); assert(buf@.take(buf@.len() as int) =~= buf@); assert(buf@ == old(self).buf@ + wire_of::<T>(old(self).compression_encoding, old(self).max_message_size, source.p.log@.skip(old(self).source.log@.len() as int))); assert(*compression_encoding == enc0); assert(*final(source.p) == fut_src); }'),
                 ('before', 'if buf.len() >= buffer_settings.yield_threshold {', 'proof { assert(good::<T>(enc0, max0, source.p.log@.last())); }'),
